@@ -20,7 +20,7 @@ go build ./... > $OUT/build.log 2>&1; B=$?
 go build -tags binary_log ./... >> $OUT/build.log 2>&1; B2=$?
 go test -count=1 ./... > $OUT/suite.log 2>&1
 SFAIL=$(grep -E "^(--- FAIL|FAIL)" $OUT/suite.log | grep -v journald | grep -v "^FAIL$" | head -5)
-go test -race -count=1 . ./diode/... ./hlog/... > $OUT/race.log 2>&1; R=$?
+go test -race -count=1 . ./diode/... ./hlog/... ./internal/... > $OUT/race.log 2>&1; R=$?
 echo "== $ID build=$B/$B2 race_suite=$R suite_failures_other_than_journald=[$SFAIL]"
 cd /; git -C /repo worktree remove --force $WT
 cp $SRC/v$K.diff $OUT/patch.diff; cp $SRC/v$K.md $OUT/agent_notes.md; cp $SRC/v${K}_stress* $OUT/ 2>/dev/null
